@@ -820,3 +820,31 @@ def rewrite_range_for_tbl(ftoks, lo, table, tags, log, fn, unit_globals=None):
                 continue
         k += 1
     return out
+
+
+def rewrite_auto_tbl(ftoks, lo, table, log, fn):
+    """N6, table driven: `auto [&] v = E.find(...)` / `E.begin()` / `E.end()` -> `<container type of E>::iterator v = ...`.
+    table: list of (regex on the text of E, container type).  Declarations that do not match stay (and are then caught by
+    the leftover scan)."""
+    import re as _re
+    out = list(ftoks)
+    k = lo
+    while k < len(out):
+        t = out[k]
+        if t.kind == 'id' and t.text == 'auto':
+            j = next_code(out, k)
+            while out[j].text in ('const', '&', '&&'):
+                j = next_code(out, j)
+            eq = next_code(out, j)
+            if out[eq].text == '=':
+                semi = find_stmt_end(out, eq)
+                rhs = ' '.join(untok(out[eq + 1:semi]).split())
+                m = _re.fullmatch(r'(.+?)\s*\.\s*(find|begin|end)\s*\(.*\)', rhs)
+                if m:
+                    for rx, ct in table:
+                        if _re.fullmatch(rx, m.group(1).replace(' ', '')):
+                            out[k] = _mk('id', ct + '::iterator')
+                            log.fire('N6', fn)
+                            break
+        k += 1
+    return out
